@@ -345,6 +345,35 @@ def check_alias(S, r, depth, n_perturb):
         S.dist["alias:accept" if b is True else "alias:reject"] += 1
         if a != b:
             S.viol(f"alias verdict {a}, target verdict {b}", dict(rp, value=gen.vsrc(v), observed=a, expected=b))
+    # alias CLASSES of one's own (GenericTypeAliasSchema over a Props class): the aliased type is whatever `props.type`
+    # says - also when the Props class computes it (a default, as the declaration tests do) instead of storing it
+    from d42 import fake
+    from d42.declaration.types import GenericTypeAliasSchema, TypeAliasProps
+
+    class _DefaultedProps(TypeAliasProps):
+        @property
+        def type(self):
+            return self.get("type", t)
+
+    class _DefaultedAlias(GenericTypeAliasSchema[_DefaultedProps]):
+        pass
+
+    class _PlainAlias(GenericTypeAliasSchema[TypeAliasProps]):
+        pass
+    variants = [("an alias class whose Props computes the type", _DefaultedAlias()),
+                ("an alias class whose Props computes the type, nested", schema.list([_DefaultedAlias(), ...])),
+                ("a user subclass of the alias schema, declared", _PlainAlias(TypeAliasProps().update(name=name, type=t)))]
+    for label, al2 in variants:
+        nested = "nested" in label
+        for v in values_for(r, [t], n_perturb)[:6]:
+            S.oracle_cases += 1
+            w = [v, 0] if nested else v
+            a = verdict(al2, w)
+            b = verdict(schema.list([t, ...]), w) if nested else verdict(t, v)
+            S.dist["alias_class:" + ("accept" if b is True else "reject")] += 1
+            if a != b:
+                S.viol(f"{label}: verdict {a}, target verdict {b}", dict(rp, alias_class=label, value=gen.vsrc(w), observed=a, expected=b))
+                break
 
 
 def _ckeys(ks, kt):
